@@ -23,8 +23,8 @@ func init() { commands["c19"] = runC19 }
 // an assignment of the twelve documented options (absent = not set)
 type assignment struct {
 	Mode, WorkDir, Storage, Interval, SigMode, FetchMode, CacheDur *string
-	CDPStrict, AIAStrict                                            *bool
-	CRLUrls, CRLFiles, TrustedSig, TrustedResp                      []string
+	CDPStrict, AIAStrict                                           *bool
+	CRLUrls, CRLFiles, TrustedSig, TrustedResp                     []string
 	// deliberately wrong additions
 	BadKey   string // "", "top", "crl", "cdp", "ocsp"
 	BadValue string // "", "mode", "storage", "sig", "fetch", "interval", "cache", "strict"
